@@ -1,5 +1,6 @@
 import NixModel.Lemmas.C16Schema
 import NixModel.Lemmas.C16Rec
+import NixModel.Lemmas.C16Bytes
 import NixModel.Pure.FrameShape
 import NixModel.Generated.FrameShape
 /-!
@@ -548,6 +549,43 @@ theorem C16_record_histories (f0 : Frame) (hist : List OpR) (o : OpR) (hc : Crea
     fun e h => C16_refused_unchanged f0 _ _ e h, fun r c h => C16_frame f0 _ _ r c hc' h⟩
 
 -- ---------------------------------------------------------------------------------------
+-- the table as it lies in the file (`Pure/FrameBytes.lean`): text cells are UTF-8 bytes; `append_column` and
+-- `write_column` work on raw rows, every read and `write_cell` on rows converted by `_convert_string_cols`
+
+/-- **the byte-level machine is the abstract frame**: from the stored form of any created frame, after any history,
+    the byte-level state is the encoding of the abstract state, and the next operation — accepted or refused — again
+    yields the encoding of the abstract result together with the same error.  (The driver runs the byte-level
+    machine, so this is the theorem that lets the property theorems above speak about what the differential runs
+    compare with the implementation.) -/
+theorem C16_storage_simulates (f0 : Frame) (hist : List Op) (op : Op) (hc : Created f0) :
+    srun (encFrame f0) hist = encFrame (run f0 hist) ∧
+    sstep (srun (encFrame f0) hist) op = (encFrame (step (run f0 hist) op).1, (step (run f0 hist) op).2) := by
+  have h := srun_enc (created_wf hc) hist
+  exact ⟨h, by rw [h]; exact sstep_enc (wf_run (created_wf hc) hist) op⟩
+
+/-- **every read converts the stored bytes back to what was written**: after any history, `frame[:]`, `read_rows`
+    (int and list), `read_columns` (any selection and slice) and `read_cell` (both forms), computed on the stored
+    bytes as the code does — raw selection, then `_convert_string_cols` on the single row or on every row — return
+    exactly what the abstract reads return (which the theorems above prove to be what was written) -/
+theorem C16_storage_reads (f0 : Frame) (hist : List Op) (hc : Created f0) :
+    sReadAll (srun (encFrame f0) hist) = .ok (run f0 hist).rows ∧
+    (∀ i, sReadRow (srun (encFrame f0) hist) i = readRow (run f0 hist) i) ∧
+    (∀ idx, sReadRows (srun (encFrame f0) hist) idx = readRows (run f0 hist) idx) ∧
+    (∀ sel lo hi, sReadColumns (srun (encFrame f0) hist) sel lo hi = readColumns (run f0 hist) sel lo hi) ∧
+    (∀ pos, sReadCellPos (srun (encFrame f0) hist) pos = readCellPos (run f0 hist) pos) ∧
+    (∀ name ri, sReadCellName (srun (encFrame f0) hist) name ri = readCellName (run f0 hist) name ri) := by
+  have wf := wf_run (created_wf hc) hist
+  rw [srun_enc (created_wf hc) hist]
+  exact ⟨sReadAll_enc wf, sReadRow_enc wf, sReadRows_enc wf, sReadColumns_enc wf, sReadCellPos_enc wf,
+    sReadCellName_enc wf⟩
+
+/-- **text survives storage**: decoding the stored bytes of any string gives the string back, and the conversion
+    of a stored cell of the column's type is that cell — for every string (non-ASCII, empty, any length) -/
+theorem C16_text_roundtrip (s : String) (t : ColType) (v : Val) :
+    ensureStr s.toUTF8 = .ok (.str s) ∧ (wellTyped t v = true → convStringCell t (enc v) = .ok v) :=
+  ⟨ensureStr_toUTF8 s, convStringCell_enc⟩
+
+-- ---------------------------------------------------------------------------------------
 -- the shape of the source (regenerated from nixio/data_frame.py and block.py on every run)
 
 /-- **DataFrame objects carry no state**: no method other than `__init__` assigns an object field and no method
@@ -621,5 +659,14 @@ example : (createStructRec exRec).map (·.cols) = .ok [("a", .i8), ("label", .te
     createDictRec [("k", .i8)] exRec = .error .typeError := ⟨rfl, rfl, rfl⟩
 example : CreatedR exFrame := CreatedR.lists (Created.dict exFrame_created)
 example : (stepR exFrame (.appendRowsRec ⟨[("a", .i8, 0)], [[.int 3]]⟩)).2 = some .valueError := by decide
+
+/-- the stored form of the example frame holds bytes; the byte-level reads convert them back -/
+example : sReadRow (encFrame exFrame) (-1) = .ok [.int 2, .str "y"] ∧
+    sReadCellName (encFrame exFrame) "s" 0 = .ok (.str "x") := by
+  have wf := created_wf (Created.dict exFrame_created)
+  rw [sReadRow_enc wf, sReadCellName_enc wf]
+  exact ⟨rfl, rfl⟩
+/-- a text field that does not hold valid UTF-8 is refused by the conversion; bytes in a numeric field are, too -/
+example : convStringCell .i8 (.bytes "x".toUTF8) = .error .typeError := rfl
 
 end Nix.C16
